@@ -266,6 +266,21 @@ pub fn field_mutations(f: &Frame) -> Vec<Mutation> {
                     }
                     out.push(m);
                 }
+                // saturated: the whole built-in replaced by a long run of 0xFF (every pattern bit of the built-in AND of every
+                // mask nested inside it set, with enough bytes behind to satisfy all of them), and by a run of 0x80 / 0x7F
+                if fld.len >= 1 {
+                    for (what, byte, n) in [("0xFF x 6000", 0xFFu8, 6000usize), ("0xFF x 300", 0xFF, 300), ("0x80 x 600", 0x80, 600), ("0x7F x 600", 0x7F, 600)] {
+                        let mut m = Mutation::base(f, "T8", format!("field#{} {} ({}) replaced by {}", fi, fld.path, name, what));
+                        let delta = n as i64 - fld.len as i64;
+                        m.plain.splice(fld.off..fld.off + fld.len, vec![byte; n]);
+                        if let Some(cs) = m.comp_start {
+                            if fld.off < cs {
+                                m.comp_start = Some((cs as i64 + delta) as usize);
+                            }
+                        }
+                        out.push(m);
+                    }
+                }
                 if name.starts_with("Achievement") && fld.len >= 4 {
                     // no sentinel: drop the last 4 bytes of the field
                     let mut m = Mutation::base(f, "T8", format!("field#{} {} sentinel removed", fi, fld.path));
